@@ -18,6 +18,12 @@ CLAIMED = {
  "C08": ("Coq proof (percent-encoding engine = specification; exact mask query; mask exactness and sufficiency; idempotence outside relative-path references, refuted inside) + 64-mask correspondence",
          "Theorems for all objects / all pct-well-formed texts: fix_pct equals the specification, never lengthens, the mask query is exact for percent-encodings and case; every mask changes exactly the selected components to their full normal form; the reported mask is sufficient and zero means normal; idempotence for non-relative references, with the relative-reference counterexample proved (known finding D7). Tied to src/UriNormalize.c by all 64 masks on borrowed and owned objects over case/percent/dot alphabets with the text-level RFC 6.2.2 oracle.",
          TB + " Known findings D7a-c and D14 (relative-path references; missing guard) are carved out of the positive theorems and suppressed by shape in the oracle.", "5 C08"),
+ "C09": ("Coq proof (relative-mode dot removal followed by absolute-mode removal on top of any base stack equals removal of the merged path; exact carve-outs with refutation witnesses) + small-scope exhaustive correspondence of both pipelines",
+         "Theorems for all references R (percent-well-formed, no percent-encoded dot segment) and bases B: normalize(resolve(normalize R, B)) has the same components as normalize(resolve(R, B)) outside two shapes (relative reference that cancels completely, D7a; kept dot eaten by '..', D7e), each refuted with a witness and shown exact on a small scope; scheme and authority presence preserved for every mask; path kind preserved for references with neither, outside four refuted shapes (D7a,b,c, D14). Tied to the code by running both pipelines as one history per (R, B) pair on the implementation and the model over small-scope references and bases several levels deep.",
+         TB + " The commutation law is stated for strict resolution (or a reference without scheme); with the identical-scheme option it is refuted in the Props file (inherent to the option).", "5 C09"),
+ "C10": ("Coq proof (induction over the common prefix; resolving (..)^k ++ rest against the base directory) for the round trip under an explicit sufficient condition, full statement refuted with the listed witnesses + small-scope exhaustive correspondence of create-reference/resolve histories",
+         "Theorems: both error codes; when schemes differ the reference is the source; scheme/authority omission rules (full authority incl. user info and port); domain-root mode yields an absolute path; round trip resolve(create(S,B),B) = S for walk_ok pairs and, more generally, for parser-like objects outside c10_failing_shape; the full statement is refuted by the five open witnesses D8a,b,c,d,f and by the dotted-base witness D8i. Tied to src/UriShorten.c by (S, B, mode) triples over small-scope paths, authorities differing in one byte, dotted bases; a failing triple is attributed to a listed finding only if the frozen model fails on it in the same way and its root-cause class is listed.",
+         TB + " Partial with respect to the property's unconditional wording: the open findings D8a-d,f,i are genuine violations of the round trip on the unchanged tree.", "5 C10"),
  "C11": ("Coq proof (uriEqualsUri characterised by a key function; injective on NUL-free texts) + all-pairs correspondence",
          "Theorems: equality holds iff all components are identical (IP hosts by value, absent never equal to empty) for NUL-free texts; reflexive, symmetric, transitive for all values incl. NULL; identical components give identical text. Tied to src/UriCompare.c by all ordered pairs over a pool of raw objects differing in one component and parsed texts, plus pairs of library-produced objects compared with their recomposed texts. The converse text direction is checked on library-produced objects at run time (known finding D6).",
          TB, "5 C11"),
